@@ -1,7 +1,7 @@
 (* C20/Property.v — property C20 (link URIs select the right driver and parse to the right radio settings).
    Theorems only; each is closed by `exact <lemma of Proofs_*.v>` and followed by Print Assumptions.
    The model (C20/Model.v) describes the code with fixes/F20.patch, F20b.patch and F20c.patch applied. *)
-From CF Require Import Common.Bytes C20.Model C20.Proofs_a C20.Proofs_b C20.Proofs_c C20.Proofs_d C20.Proofs_e C20.Proofs_f C20.Proofs_g.
+From CF Require Import Common.Bytes C20.Model C20.Proofs_a C20.Proofs_b C20.Proofs_c C20.Proofs_d C20.Proofs_e C20.Proofs_f C20.Proofs_g C20.Proofs_h.
 Open Scope Z_scope.
 
 (* Every well-formed radio URI parses to exactly what it names.  Dongle: a number below 10^9 or a serial
@@ -198,3 +198,43 @@ Theorem C20_scan_selected_head_format_refuted :
                      parse_uri [] (sel_uri addr ch rt) = POk 0 ch rt addr None.
 Proof. exact scan_selected_head_format_refuted. Qed.
 Print Assumptions C20_scan_selected_head_format_refuted.
+
+(* ---- Wave 11: histories of init_drivers calls.  cflib.crtp.CLASSES is a module-level list and every
+   init_drivers(enable_serial_driver=b) call appends to it (`init_history calls`, calls = the b's in order; a class may
+   be listed more than once, so "claimed by exactly one driver" is stated on the distinct classes: `claimants`). *)
+
+(* after ANY history containing an enabling call a serial URI is handled by SerialDriver, and by that class only *)
+Theorem C20_history_serial_enabled : forall serials env calls uri,
+  existsb (fun b => b) calls = true -> claims DrvSerial uri = true ->
+  get_link_driver serials env (init_history calls) uri = conn_result DrvSerial (connect serials env DrvSerial uri) /\
+  claimants (init_history calls) uri = [DrvSerial].
+Proof. exact history_serial_enabled. Qed.
+Print Assumptions C20_history_serial_enabled.
+
+(* without an enabling call the optional driver is absent: nobody claims a serial URI, no driver *)
+Theorem C20_history_serial_not_enabled : forall serials env calls uri,
+  existsb (fun b => b) calls = false -> claims DrvSerial uri = true ->
+  get_link_driver serials env (init_history calls) uri = GNone /\ claimants (init_history calls) uri = [].
+Proof. exact history_serial_not_enabled. Qed.
+Print Assumptions C20_history_serial_not_enabled.
+
+(* every other scheme is unaffected by the history: after any non-empty history, its driver and only that class *)
+Theorem C20_history_other_schemes : forall serials env calls uri d,
+  calls <> [] -> d <> DrvSerial -> claims d uri = true ->
+  get_link_driver serials env (init_history calls) uri = conn_result d (connect serials env d uri) /\
+  claimants (init_history calls) uri = [d].
+Proof. exact history_other_schemes. Qed.
+Print Assumptions C20_history_other_schemes.
+
+Theorem C20_history_at_most_one_class : forall calls uri, (List.length (claimants (init_history calls) uri) <= 1)%nat.
+Proof. exact history_at_most_one_class. Qed.
+Print Assumptions C20_history_at_most_one_class.
+
+(* refutation of an "already initialised" guard: init_drivers() then init_drivers(enable_serial_driver=True) must give
+   serial its driver; ignoring the second call leaves it with none *)
+Theorem C20_guarded_init_refuted :
+  exists uri, claims DrvSerial uri = true /\
+    claimants (init_history [false; true]) uri = [DrvSerial] /\
+    claimants (init_history [false]) uri = [].
+Proof. exact guarded_init_refuted. Qed.
+Print Assumptions C20_guarded_init_refuted.
